@@ -110,6 +110,10 @@ M = [
      lambda: sub("src/protocol.rs", "        let mut first_available_id = 0;\n\n        for id in self.handlers.keys() {\n            if first_available_id == *id {\n                first_available_id += 1;\n            }\n        }\n\n        return first_available_id;", "        let mut id = 0;\n        while self.handlers.contains_key(&id) {\n            id += 1;\n        }\n        id")),
     ("h07_usart_body_for_loop", [], "usart.rs: body read loop written as a counted for loop",
      lambda: sub("src/interface/usart.rs", "while frame.len() < expected_length as usize {", "for _ in 0..expected_length as usize {")),
+    ("h09_handlers_reverse_order", [], "handle_packet invokes the handlers in descending id order (no property fixes the order among the handlers of one packet)",
+     lambda: sub("src/protocol.rs", "for handler in transmute::<&Self, &mut Self>(self).handlers.values_mut() {", "for handler in transmute::<&Self, &mut Self>(self).handlers.values_mut().rev() {")),
+    ("h10_bcm_binary_strict", [], "brightness decoder rejects Binary flag bytes other than 0/1 (stricter than the pinned code; no property requires accepting them)",
+     lambda: sub("src/event/bcm.rs", "                Ok(Self::Binary(data[1] != 0x00))", "                if data[1] > 0x01 {\n                    return Err(ConvertPacketError::UnknownEnumVariant);\n                }\n\n                Ok(Self::Binary(data[1] != 0x00))")),
     ("h08_builder_with_capacity", [], "PacketBuilder::new preallocates room for the announced frames",
      lambda: sub("src/packet.rs", "            frames: vec![frame],\n", "            frames: {\n                let mut v = Vec::with_capacity(expected_frame_count as usize);\n                v.push(frame);\n                v\n            },\n")),
 ]
